@@ -186,32 +186,33 @@ func (l *zzsLink) pair() []string {
 }
 
 type zzsSys struct {
-	t         *testing.T
-	m         *zzvMesh
-	rng       *rand.Rand
-	names     []string
-	links     []*zzsLink
-	exits     map[string]*zzsEcho
-	sleeper   string
-	awake     map[string]bool
-	tunnels   []*zzsTunnel
-	maxTun    int
-	mu        sync.Mutex
-	regDone   map[string]int
-	discDone  map[string]int
-	mgr       map[*peer.Manager]string
-	park      map[string]bool // agents whose read loops are held at peer.read.disconnect
-	parkCh    chan struct{}
-	parkedN   int
-	out       *json.Encoder
-	nEvents   int
-	settle    time.Duration
-	connSeq   int
-	notParked bool
-	frameIdx  int
-	expE      map[string]int
-	baseE     map[string]int
-	baseD     map[string]int
+	t          *testing.T
+	m          *zzvMesh
+	rng        *rand.Rand
+	names      []string
+	links      []*zzsLink
+	exits      map[string]*zzsEcho
+	sleeper    string
+	awake      map[string]bool
+	tunnels    []*zzsTunnel
+	maxTun     int
+	mu         sync.Mutex
+	regDone    map[string]int
+	discDone   map[string]int
+	mgr        map[*peer.Manager]string
+	park       map[string]bool // agents whose read loops are held at peer.read.disconnect
+	parkCh     chan struct{}
+	parkedN    int
+	out        *json.Encoder
+	nEvents    int
+	settle     time.Duration
+	connSeq    int
+	notParked  bool
+	serialWake bool
+	frameIdx   int
+	expE       map[string]int
+	baseE      map[string]int
+	baseD      map[string]int
 }
 
 func (s *zzsSys) isBlocked(owner, addr string) bool {
@@ -767,6 +768,18 @@ func (s *zzsSys) opSleep(a string, parked bool) {
 		// (a connection that survived the sleep is still up: nothing will re-establish it at the wake)
 		l.up = s.agent(l.dialer).peerMgr.GetPeer(s.m.ID(l.acceptor)) != nil && s.agent(l.acceptor).peerMgr.GetPeer(s.m.ID(l.dialer)) != nil
 	}
+	if s.serialWake {
+		// The links of the sleeper come back one at a time, each as a Connect operation of its own (the dials of its
+		// peers and, after the wake, its own are refused until then): when a hub wakes up and all its links reconnect at
+		// once, the orders of the replays and floods TLC has to search for ONE event run into millions.
+		s.mu.Lock()
+		for _, l := range s.linksOf(a, false) {
+			if !l.up {
+				l.want = false
+			}
+		}
+		s.mu.Unlock()
+	}
 	s.awake[a] = false
 	s.quiesce("Sleep")
 	s.emit(ev)
@@ -977,6 +990,7 @@ func TestZZVSystemTrace(t *testing.T) {
 		t.Run(fmt.Sprintf("s%d-%s", i, topo.name), func(t *testing.T) {
 			s := zzsNewSys(t, rng, names, links, exits, sleeper, settle)
 			s.out = enc
+			s.serialWake = true
 			s.reset(topo.name, i)
 			s.randomOps(nops, rng.Intn(4) != 0)
 			events += s.nEvents
